@@ -57,3 +57,17 @@ pub mod syn_parse {
 
 verus! {
 }
+
+verus! {
+impl Error {
+    #[verifier::external_body]
+    pub fn new(span: Span, message: &str) -> (r: Error) { unimplemented!() }
+}
+pub trait Spanned {
+    fn span(&self) -> Span;
+}
+impl Spanned for Option<TokenStream> {
+    #[verifier::external_body]
+    fn span(&self) -> (r: Span) { unimplemented!() }
+}
+}
